@@ -3,7 +3,7 @@
 ENGINES = [
     {'name': 'explore', 'path': 'lib/vt/explore.py',
      'serves_properties': ['C01', 'C02', 'C03', 'C04', 'C06', 'C07',
-                           'C08', 'C09', 'C10', 'C11', 'C12', 'C13', 'C14',
+                           'C08', 'C09', 'C10', 'C11', 'C13', 'C14',
                            'C15', 'C17', 'C18', 'C19', 'C20'],
      'kind_free_text': 'bounded exhaustive enumeration driver: shards a finite '
                        'case space over 16 long-lived workers, runs the real '
@@ -16,6 +16,22 @@ NOTES = ('Every check executes the implementation in /repo/src (working tree) '
          'DESIGN.md.')
 
 CHECKS = [
+    {'id': 'C12', 'engine': 'explore', 'level': 'exploration',
+     'design_ref': 'DESIGN.md §4 C12',
+     'technique': 'bounded exhaustive enumeration of outcome placements x '
+                  'verbosity x repeat x execution mode on the real Runner; '
+                  'printed counts and name lists compared with counts from '
+                  'the spec and the trace',
+     'text': 'In 6 layer shapes every placement of <=1 (thorough: 2) non-pass '
+             'outcomes of 17 kinds, <=1 failing layer hook and an optional '
+             'unimportable module is run with -v 0/1/2, --repeat 1/2, '
+             'sequentially, with -j2 and with resumed children; every "Ran" '
+             'line of every process, Runner.ran, the "Total:" line, the '
+             'failure/error lists and the printed "Tests with ..." sections '
+             'must equal the ground truth computed from the spec and trace.',
+     'note': 'Uses upstream conventions for import errors in per-layer counts '
+             'and for Total tests under --repeat. One known finding (skips in '
+             'children not totalled) is listed in known_findings.json.'},
     {'id': 'C02', 'engine': 'explore', 'level': 'exploration',
      'design_ref': 'DESIGN.md §4 C02',
      'technique': 'bounded exhaustive enumeration of bad-item / look-alike '
@@ -119,7 +135,7 @@ CHECKS = [
 ]
 
 _PENDING = ['C03', 'C06', 'C07', 'C08', 'C09',
-            'C10', 'C11', 'C12', 'C13', 'C14', 'C15', 'C17', 'C18',
+            'C10', 'C11', 'C13', 'C14', 'C15', 'C17', 'C18',
             'C19']
 _DONE = {c['id'] for c in CHECKS}
 NOT_APPLICABLE = [
